@@ -118,7 +118,9 @@ class Ctx:
         if constants:
             text = open(os.path.join(wd, cfgname)).read()
             for k, v in constants.items():
-                text = re.sub(r"(?m)^(\s*%s\s*=\s*).*$" % re.escape(k), lambda m: m.group(1) + v, text)
+                text, n = re.subn(r"(?m)^(\s*(?:CONSTANTS?\s+)?%s\s*=\s*).*$" % re.escape(k), lambda m: m.group(1) + v, text)
+                if n != 1:
+                    raise Infra("constant %s not found in %s" % (k, cfgname))
             cfgname = "gen-" + cfgname
             open(os.path.join(wd, cfgname), "w").write(text)
         meta = os.path.join(wd, "meta")
